@@ -108,9 +108,10 @@ impl RegexMatcher {
 
         // The entire path has to be in the pattern's language. A backtracking
         // matcher returns the first match it finds (for `a\|ab` on "ab" that
-        // is "a"), so the pattern is put in a group and closed with an end
-        // anchor, which makes the matcher go on to the alternatives that do
-        // reach the end of the path.
+        // is "a"), so the pattern is put in a group and followed by a NUL,
+        // which `matches()` appends to the path as well: that makes the
+        // matcher go on to the alternatives that do reach the end of the
+        // path. (Not `$`: it also matches before a newline in the path.)
         let (open, close) = if regex_type == RegexType::PosixExtended {
             ("(", ")")
         } else {
@@ -121,16 +122,16 @@ impl RegexMatcher {
             .windows(2)
             .any(|w| w[0] == b'\\' && (b'1'..=b'9').contains(&w[1]));
         let regex = if !has_back_reference {
-            Regex::with_options(&format!("{open}{pattern}{close}$"), options, syntax)?
+            Regex::with_options(&format!("{open}{pattern}{close}\0"), options, syntax)?
         } else if !pattern.contains(&format!("{open}?")) {
             // An extra capturing group would renumber the back-references:
             // use a group that does not capture (its "(?:" spelling is only
             // switched on here, where the pattern has no "(?" of its own).
             let mut shy_syntax = *syntax;
             shy_syntax.enable_operators(SyntaxOperator::SYNTAX_OPERATOR_QMARK_GROUP_EFFECT);
-            Regex::with_options(&format!("{open}?:{pattern}{close}$"), options, &shy_syntax)?
+            Regex::with_options(&format!("{open}?:{pattern}{close}\0"), options, &shy_syntax)?
         } else {
-            Regex::with_options(pattern, options, syntax)?
+            Regex::with_options(&format!("{pattern}\0"), options, syntax)?
         };
         Ok(Self { regex })
     }
@@ -143,7 +144,7 @@ impl RegexMatcher {
     pub fn match_error(&self, path: &str) -> Option<String> {
         self.regex
             .match_with_param(
-                path,
+                format!("{path}\0").as_str(),
                 0,
                 SearchOptions::SEARCH_OPTION_NONE,
                 None,
@@ -156,12 +157,13 @@ impl RegexMatcher {
 
 impl Matcher for RegexMatcher {
     fn matches(&self, file_info: &WalkEntry, _: &mut MatcherIO) -> bool {
-        let path = file_info.path().to_string_lossy();
+        // The pattern was compiled with a NUL after it (see `new()`).
+        let path = format!("{}\0", file_info.path().to_string_lossy());
         // Not `Regex::is_match`: it panics when the matcher gives up (e.g. on
         // its backtracking limit). Such a path is reported as not matching.
         matches!(
             self.regex.match_with_param(
-                path.as_ref(),
+                path.as_str(),
                 0,
                 SearchOptions::SEARCH_OPTION_NONE,
                 None,
